@@ -24,10 +24,6 @@ fn main() {
             let work = PathBuf::from(arg(&args, "--work").expect("--work"));
             std::process::exit(http::run(&inp, &out, &work));
         }
-        "spike" => {
-            let work = PathBuf::from(arg(&args, "--work").expect("--work"));
-            http::spike(&work);
-        }
         _ => {
             eprintln!("usage: kv-http run-http --in <batches.ndjson> --out <trace.ndjson> --work <dir>");
             std::process::exit(2);
